@@ -38,7 +38,9 @@ RULE = ("nested enumeration, each case generated once: (det) transform x every (
         "1024,1025 (+100, 500, 501, 1000, 1001; thorough ..4097, 10001) x structured pairs over the same dyadic alphabet "
         "(aperiodic-marked pattern, perfect simulation, integer-valued pair): every det score with both excludenull, "
         "mean simulation, affine/scale invariances, corr with p = 1 and p = 3 members (4 variants), excludenull with "
-        "NaN/+-inf/out-of-domain values scattered in both series; category series of every ladder length over 2, 3, 6 "
+        "NaN/+-inf/out-of-domain values scattered in both series (quick tier: the perfect / integer pairs, mean simulation, "
+        "invariances, p = 3 and the corr and many-category layouts only at the lengths 2^k+1, 100, 501, 1001; the general "
+        "pair, p = 1 and the null case at every length); category series of every ladder length over 2, 3, 6 "
         "categories and over 7, 33 (n >= 31), 100 (n >= 100), 200 (n >= 500) categories x 2 patterns x ncat None/kmin/kmin+1; (layout) every ladder "
         "case and the first case of every det/corr/cm/bin unit called again with the same values as float32, int64 "
         "(when exactly representable), strided, negative-stride, read-only, [n,1] column, pandas Series/DataFrame, "
@@ -97,6 +99,7 @@ EXTRA = [
 LADDER_Q = [7, 8, 9, 15, 16, 17, 31, 32, 33, 63, 64, 65, 100, 127, 128, 129, 255, 256, 257, 500, 501, 511, 512, 513,
             1000, 1001, 1023, 1024, 1025]
 LADDER_T = LADDER_Q + [2047, 2048, 2049, 4095, 4096, 4097, 10001]
+LADDER_RICH = {9, 17, 33, 65, 100, 129, 257, 501, 513, 1001, 1025}    # quick tier: lengths carrying the full set of ladder cases
 LADDER_TRANS = [0, 1]                   # Identity, Log (indices of TRANS)
 LADDER_K = [2, 3, 6, 7, 33, 100, 200]   # category counts (the quantifier stops at 6; see ASSUMPTIONS)
 LADDER_K_MIN_N = {33: 31, 100: 100, 200: 500}   # confusion_matrix inserts absent categories one by one (seconds for 200 absent ones)
@@ -119,8 +122,9 @@ def bound_text(tier, seed):
                 "n=3 5 letters Identity / 3 letters others; p=2 n=2 (Identity, Log), p=3 n=2 two-letter members; "
                 "null: n=3 >=2 complete, 6 letters Identity (with Spearman), 2 finite + NaN,+inf + out-of-domain letters others; "
                 "cm: {0,1} length<=4, {0,1,2} length<=3, 4..6 categories <=1 deviation; bin: all tables 1..6 (1296) + 256 tables over "
-                "{1,3,1000,60000+7*seed}; ladder: Identity, Log x 29 lengths 7..1025 around powers of two x (3 det pairs, mean-sim, "
-                "invariances, corr p=1,3, excludenull with 6 null values); cm: 29 lengths x category counts 2,3,6,7 and 33 (n>=31), 100 (n>=100), 200 (n>=500) x 2 "
+                "{1,3,1000,60000+7*seed}; ladder: Identity, Log x 29 lengths 7..1025 around powers of two x (general pair: all det scores, "
+                "corr p=1, excludenull with 6 null values; at the 11 lengths 2^k+1, 100, 501, 1001 also the perfect and integer pairs, mean-sim, "
+                "invariances, corr p=3, corr layouts); cm: 29 lengths x category counts 2,3,6,7 and 33 (n>=31), 100 (n>=100), 200 (n>=500) x 2 "
                 "patterns x 3 ncat; layouts: up to 10 per 1-D series, 7 per ensemble, 11 per category series, 6 per table, on every "
                 "ladder case and the first case of every unit" % (ex["name"], ex["kw"]))
     return ("det: 7 transforms (6 fixed + seed-rotated %s%s), n=2,3 all pairs over 5 letters (both excludenull), n=4 all pairs over "
@@ -1066,7 +1070,10 @@ def run_ladder_unit(unit, ctx, M):
     first = True
     for n in unit["ns"]:
         ctx.count("ladder.n=%d" % n)
-        for kind in ("gen", "perfect", "int"):
+        # quick tier: the full set of cases at one length per group (2^k + 1, 100, 501, 1001); at the other lengths the
+        # general pair (all det scores, both excludenull, layouts), the single-member correlation and the null case
+        rich = unit.get("full", False) or n in LADDER_RICH
+        for kind in (("gen", "perfect", "int") if rich else ("gen",)):
             obs, sim = ladder_pair(kind, n, spec)
             io, is_ = info_of(T, obs), info_of(T, sim)
             if first:
@@ -1077,20 +1084,23 @@ def run_ladder_unit(unit, ctx, M):
             if kind != "perfect":
                 check_det_layouts(ctx, M, spec, T, obs, sim)
             if kind == "gen":
-                check_meansim(ctx, M, spec, T, io)
-                if spec["name"] == "Identity":
-                    check_invariance(ctx, M, spec, T, io, is_)
-                # corr: single member and 3 members
-                ens1 = [[v] for v in sim]
-                ens3 = ladder_ens(n, spec, sim)
-                for ens in (ens1, ens3):
+                if rich:
+                    check_meansim(ctx, M, spec, T, io)
+                    if spec["name"] == "Identity":
+                        check_invariance(ctx, M, spec, T, io, is_)
+                # corr: single member and (rich) 3 members
+                enss = [[[v] for v in sim]]
+                if rich:
+                    enss.append(ladder_ens(n, spec, sim))
+                for ens in enss:
                     ctx.count("ladder.corr_cases")
                     # Spearman of the mean of several members needs exact float means (rows holding the same members in
                     # another order must tie, as they do in the Fraction oracle): Identity over dyadic letters only
                     exactmeans = spec["name"] == "Identity" or len(ens[0]) == 1
                     check_corr(ctx, M, spec, T, io, ens,
                                variants=CORR_VARIANTS if exactmeans else [v for v in CORR_VARIANTS if v != ("Spearman", "mean")])
-                    check_corr_layouts(ctx, M, spec, T, obs, ens)
+                    if rich:
+                        check_corr_layouts(ctx, M, spec, T, obs, ens)
                 # excludenull with scattered null values
                 on, sn = ladder_null(n, spec, obs, sim)
                 ctx.count("ladder.null_cases")
@@ -1117,7 +1127,8 @@ def run_cmladder_unit(unit, ctx, M):
                     ctx.count("ladder.cm_cases")
                     ctx.count("ladder.cm.K=%d" % K)
                     check_cm(ctx, M, obs, sim, ncat)
-                    if ncat == K or (ncat is None and K <= 6):
+                    rich = unit.get("full", False) or n in LADDER_RICH
+                    if (ncat == K and (K <= 6 or rich)) or (ncat is None and K <= 6 and rich):
                         check_cm_layouts(ctx, M, obs, sim, ncat)
 
 # ---------------------------------------------------------------------------
@@ -1253,10 +1264,10 @@ def units(tier, seed):
         chunks.append(chunk)
     for ti in LADDER_TRANS:
         for ch in chunks:
-            us.append({"kind": "ladder", "t": ti, "ns": ch})
+            us.append({"kind": "ladder", "t": ti, "ns": ch, "full": not quick})
     for ch in chunks:
-        us.append({"kind": "cmladder", "ns": ch, "ks": [k for k in LADDER_K if k <= 6]})
-        us.append({"kind": "cmladder", "ns": ch, "ks": [k for k in LADDER_K if k > 6]})
+        us.append({"kind": "cmladder", "ns": ch, "ks": [k for k in LADDER_K if k <= 6], "full": not quick})
+        us.append({"kind": "cmladder", "ns": ch, "ks": [k for k in LADDER_K if k > 6], "full": not quick})
     return us
 
 
